@@ -5,7 +5,11 @@
 P="$1"; ID="$2"; TIER="${3:-quick}"
 WT="/tmp/wt/st_$$"
 mkdir -p /tmp/wt
-git -C /repo worktree add -q --detach "$WT" HEAD || exit 2
+# (several of these may start at once: git serializes worktree creation with a lock file, so try a few times)
+n=0
+until git -C /repo worktree add -q --detach "$WT" HEAD 2>/dev/null; do
+  n=$((n+1)); [ $n -ge 10 ] && exit 2; sleep 1
+done
 case "$P" in
   revert:*) (cd "$WT" && git revert --no-commit "${P#revert:}" >/dev/null) || { git -C /repo worktree remove --force "$WT"; exit 2; } ;;
   *) (cd "$WT" && git apply "$P") || { git -C /repo worktree remove --force "$WT"; exit 2; } ;;
